@@ -1,1 +1,97 @@
-// harnesses for this module (included by the isomer_erbium_verif hook)
+// Native replay of mirsym counterexamples against the REAL lease pool (in-memory SQLite).  Not a Kani harness:
+// compiled only for `cargo test --features isomer_erbium_verif`, driven by /verif/lib/mir_replay.py.
+// Script (VERIF_REPLAY_FILE), one item per line, times relative to "now":
+//   row <address u32> <client u32> <start_rel i64> <expiry_rel i64>
+//   client <u32> | req <u32> | pool <u32> ... | min <secs> | max <secs> | op allocate|metrics
+// Output lines start with "REPLAY ".
+#[cfg(test)]
+mod replay {
+    use super::super::*;
+
+    fn client_bytes(c: u32) -> Vec<u8> {
+        c.to_be_bytes().to_vec()
+    }
+
+    #[test]
+    fn isomer_erbium_replay_pool() {
+        let path = match std::env::var("VERIF_REPLAY_FILE") {
+            Ok(p) => p,
+            Err(_) => return,
+        };
+        let script = std::fs::read_to_string(path).expect("replay script");
+        let mut pool = Pool::new_in_memory().expect("pool");
+        let now = std::time::SystemTime::now()
+            .duration_since(std::time::SystemTime::UNIX_EPOCH)
+            .unwrap()
+            .as_secs() as i64;
+        let mut client = 0u32;
+        let mut req: Option<std::net::Ipv4Addr> = None;
+        let mut addrs = PoolAddresses::new();
+        let (mut min, mut max) = (300u64, 86400u64);
+        let mut op = "allocate".to_string();
+        for line in script.lines() {
+            let w: Vec<&str> = line.split_whitespace().collect();
+            if w.is_empty() {
+                continue;
+            }
+            match w[0] {
+                "row" => {
+                    let a: u32 = w[1].parse().unwrap();
+                    let c: u32 = w[2].parse().unwrap();
+                    let s: i64 = w[3].parse().unwrap();
+                    let e: i64 = w[4].parse().unwrap();
+                    pool.conn
+                        .execute(
+                            "INSERT INTO leases (address, clientid, start, expiry) VALUES (?1, ?2, ?3, ?4)",
+                            rusqlite::params![std::net::Ipv4Addr::from(a).to_string(), client_bytes(c), (now + s) as u32, (now + e) as u32],
+                        )
+                        .expect("insert pre-state row");
+                }
+                "client" => client = w[1].parse().unwrap(),
+                "req" => req = Some(std::net::Ipv4Addr::from(w[1].parse::<u32>().unwrap())),
+                "pool" => {
+                    for x in &w[1..] {
+                        addrs.insert(std::net::Ipv4Addr::from(x.parse::<u32>().unwrap()));
+                    }
+                }
+                "min" => min = w[1].parse().unwrap(),
+                "max" => max = w[1].parse().unwrap(),
+                "op" => op = w[1].to_string(),
+                _ => panic!("bad replay line {}", line),
+            }
+        }
+        println!("REPLAY now {}", now);
+        if op == "metrics" {
+            match pool.get_pool_metrics() {
+                Ok((a, e)) => println!("REPLAY result ok {} {}", a, e),
+                Err(e) => println!("REPLAY result err {:?}", e),
+            }
+        } else {
+            let r = pool.allocate_address(
+                &client_bytes(client),
+                req,
+                &addrs,
+                std::time::Duration::from_secs(min),
+                std::time::Duration::from_secs(max),
+                &[],
+            );
+            match r {
+                Ok(l) => println!("REPLAY result ok {} {} {} {:?}", u32::from(l.ip), l.expire.as_secs(), l.expire.subsec_nanos(), l.lease_type),
+                Err(e) => println!(
+                    "REPLAY result err {}",
+                    match e {
+                        Error::DbError(_) => "DbError",
+                        Error::CorruptDatabase(_) => "CorruptDatabase",
+                        Error::NoAssignableAddress => "NoAssignableAddress",
+                        Error::RequestedAddressInUse => "RequestedAddressInUse",
+                    }
+                ),
+            }
+        }
+        for l in pool.get_leases().expect("leases") {
+            let mut c = [0u8; 4];
+            c.copy_from_slice(&l.client_id[..4]);
+            println!("REPLAY row {} {} {} {}", u32::from(l.ip), u32::from_be_bytes(c), l.start as i64 - now, l.expire as i64 - now);
+        }
+    }
+}
